@@ -142,3 +142,48 @@ Theorem C02_only_leaders_grow :
   mem_str (rname r) leaders = true /\ mem_str (rname r) left_rec = true /\ is_original r = true.
 Proof. intros. eapply emit_rule_deco; eauto. Qed.
 Print Assumptions C02_only_leaders_grow.
+
+(* The property's own example, as a theorem about the interpreter on ANY module whose method a is the one the generator
+   emits for
+       a: a 'x' | 'b'
+   (Proofs/GrowAxb.v; ordinary rules uncached, quiet): for EVERY number of x tokens, every token list  b x ... x y rest
+   whose token after the x's is not an x (the ENDMARKER of a real token stream, or anything else), and every amount of
+   fuel above the number of x's plus three, the rule returns the LEFT-nested tree  [[[b, x1], x2], ... xn]  and stops
+   after the last x; and a token list that does not start with b is refused without consuming anything.  So the rule
+   accepts exactly  b x*.  The proof instantiates C02_decorator_returns_and_records_the_limit with the method's body:
+   with the failure as seed the second alternative yields b; with the k-th tree as seed the first alternative replays it
+   from the cache and takes one more x; with the last tree as seed the first alternative fails at y and the second
+   alternative's  b  does not get further, which ends the growth. *)
+From Pegen Require Import Proofs.GrowAxb.
+Theorem C02_A_Ax_b_returns_the_left_nested_tree_of_b_xstar :
+  forall K toks M b y xs rest fuel,
+  find_meth M "a" = Some axb_meth ->
+  toks = b :: xs ++ y :: rest -> tstr b = "b" -> Forall (fun t => tstr t = "x") xs -> tstr y <> "x" ->
+  List.length xs + 3 <= fuel ->
+  exists st', run K toks false false M axb_aeval [] [] fuel "a" init_state = (Ok (nest (VTok b) xs), st') /\
+              pos st' = S (List.length xs).
+Proof. intros K toks M b y xs rest fuel HM H1 H2 H3 H4 H5. exact (axb_accepts K toks M HM b y xs rest H1 H2 H3 H4 fuel H5). Qed.
+Print Assumptions C02_A_Ax_b_returns_the_left_nested_tree_of_b_xstar.
+
+Theorem C02_A_Ax_b_refuses_what_does_not_start_with_b :
+  forall K toks M t rest fuel, find_meth M "a" = Some axb_meth -> toks = t :: rest -> tstr t <> "b" -> 2 <= fuel ->
+  exists st', run K toks false false M axb_aeval [] [] fuel "a" init_state = (Ok VNone, st') /\ pos st' = 0.
+Proof. intros K toks M t rest fuel HM. exact (axb_rejects K toks M HM t rest fuel). Qed.
+Print Assumptions C02_A_Ax_b_refuses_what_does_not_start_with_b.
+
+(* The generator model emits exactly that method for  start: a NEWLINE ; a: a 'x' | 'b'  (the analysis marking a as
+   the leader); the tree for three x's is the left-nested one. *)
+Definition ni_axb (k : N) (i : item) := NItem k None None i.
+Definition g_axb : grammar :=
+  {| rules := [{| rname := "start"; rtype := None; rmemo := false;
+                  rrhs := Rhs 1 [Alt [ni_axb 2 (NameLeaf "a"); ni_axb 3 (NameLeaf "NEWLINE")] None] |};
+               {| rname := "a"; rtype := None; rmemo := false;
+                  rrhs := Rhs 4 [Alt [ni_axb 5 (NameLeaf "a"); ni_axb 6 (StringLeaf "'x'")] None; Alt [ni_axb 7 (StringLeaf "'b'")] None] |}];
+     metas := [] |}.
+Example C02_axb_is_generated :
+  match generate [] [] "" "" "g" 100 g_axb {| a_nullable := []; a_item_nullable := []; a_graph := [("start", ["a"]); ("a", ["a"])]; a_left_rec := ["a"]; a_leaders := ["a"] |} with
+  | inl M => find_meth M "a" = Some axb_meth
+  | inr _ => False
+  end /\ nest (VTok B) [X1; X2; X1] = VList [VList [VList [VTok B; VTok X1]; VTok X2]; VTok X1].
+Proof. vm_compute. split; reflexivity. Qed.
+Print Assumptions C02_axb_is_generated.
